@@ -239,7 +239,7 @@ func RunParent(p *Prop, tier string, seed int64, verifDir string, workers int) i
 			// the child died: attribute to in-flight cases by re-running each alone
 			log := tail(logPath, 6000)
 			kind := crashKind(log)
-			inflight := readProgress(filepath.Join(pc.workDir, fl+".progress"), p.Families(cfg))
+			inflight := readProgress(filepath.Join(pc.workDir, fl+".progress"), withEnvSweep(cfg, p.Families(cfg)))
 			confirmed := 0
 			for _, c := range inflight {
 				c := c
